@@ -312,7 +312,11 @@ func buildRequest(req *ra.Req, sessionID []byte) ([]byte, ra.Facts, error) {
 		}
 		dw := &refpeer.W{}
 		dw.Str(sess).Byte(refpeer.MsgUserAuthRequest).S(pick(s.User, req.User)).S(pick(s.Service, req.ServiceName())).S("publickey").Bool(!s.NoBool).S(pick(s.AlgoInData, req.Algo)).Str(dataBlob)
-		raw, err := signer.SignRaw(sigHash(s), dw.B)
+		h := sigHash(s)
+		if h == 0 && signer.Plain().Format != ra.AlgoEd25519 {
+			h = crypto.SHA256
+		}
+		raw, err := signer.SignRaw(h, dw.B)
 		if err != nil {
 			return nil, f, err
 		}
